@@ -458,7 +458,8 @@ def run_to_completion(state: State, external_event: Union[dict, Event]) -> State
 
         advancing_heads = _resolve_action_conflicts(state, actionable_heads)
 
-        heads_are_advancing = len(advancing_heads) > 0
+        # Failing flows can create new internal events even if no head advances
+        heads_are_advancing = len(advancing_heads) > 0 or len(state.internal_events) > 0
         actionable_heads = _advance_head_front(state, advancing_heads)
         heads_are_merging = True
 
@@ -789,8 +790,8 @@ def _resolve_action_conflicts(
     advancing_heads: List[FlowHead] = []
     if len(actionable_heads) == 1:
         # If we have only one actionable head there is no conflict
-        advancing_heads = actionable_heads
-        _generate_action_event_from_actionable_element(state, list(actionable_heads)[0])
+        if _try_generate_action_event(state, list(actionable_heads)[0]):
+            advancing_heads = actionable_heads
     elif len(actionable_heads) > 1:
         # Group all actionable heads by their flows interaction loop
         head_groups: Dict[str, List[FlowHead]] = {}
@@ -810,30 +811,43 @@ def _resolve_action_conflicts(
                 + [1.0] * (max_length - len(head.matching_scores)),
                 reverse=True,
             )
-            # Check if we have heads with the exact same matching scores and pick one at random (or-group)
-            equal_heads_index = next(
-                (
-                    i
-                    for i, h in enumerate(ordered_heads)
-                    if h.matching_scores != ordered_heads[0].matching_scores
-                ),
-                len(ordered_heads),
-            )
-            picked_head = random.choice(ordered_heads[:equal_heads_index])
-            winning_element = get_flow_config_from_head(state, picked_head).elements[
-                picked_head.position
-            ]
-            assert isinstance(winning_element, SpecOp)
-            flow_state = get_flow_state_from_head(state, picked_head)
-            winning_event = get_event_from_element(state, flow_state, winning_element)
-            log.info(
-                "Winning action at head: %s scores=%s",
-                picked_head,
-                picked_head.matching_scores,
-            )
+            while ordered_heads:
+                # Check if we have heads with the exact same matching scores and pick one at random (or-group)
+                equal_heads_index = next(
+                    (
+                        i
+                        for i, h in enumerate(ordered_heads)
+                        if h.matching_scores != ordered_heads[0].matching_scores
+                    ),
+                    len(ordered_heads),
+                )
+                picked_head = random.choice(ordered_heads[:equal_heads_index])
+                winning_element = get_flow_config_from_head(
+                    state, picked_head
+                ).elements[picked_head.position]
+                assert isinstance(winning_element, SpecOp)
+                flow_state = get_flow_state_from_head(state, picked_head)
+                winning_event = get_event_from_element(
+                    state, flow_state, winning_element
+                )
+                log.info(
+                    "Winning action at head: %s scores=%s",
+                    picked_head,
+                    picked_head.matching_scores,
+                )
 
-            advancing_heads.append(picked_head)
-            _generate_action_event_from_actionable_element(state, picked_head)
+                if _try_generate_action_event(state, picked_head):
+                    advancing_heads.append(picked_head)
+                    break
+
+                # The action event of the picked head could not be generated and its flow
+                # was aborted, the remaining heads compete again
+                ordered_heads = [
+                    h
+                    for h in ordered_heads
+                    if h.flow_state_uid != picked_head.flow_state_uid
+                ]
+
             for head in ordered_heads:
                 if head == picked_head:
                     continue
@@ -2392,6 +2406,31 @@ def get_event_from_element(
             return new_event
 
     raise ColangRuntimeError("Unsupported case!")
+
+
+def _try_generate_action_event(state: State, head: FlowHead) -> bool:
+    """Generate the action event of an actionable head. A runtime error (e.g. an action
+    parameter of the wrong type) only fails the flow of the head and returns False."""
+    try:
+        _generate_action_event_from_actionable_element(state, head)
+        return True
+    except Exception as e:
+        flow_state = get_flow_state_from_head(state, head)
+        log.warning(
+            "Flow '%s' failed due to Colang runtime exception in action statement: %s",
+            flow_state.flow_id,
+            e,
+            exc_info=True,
+        )
+        _push_internal_event(
+            state,
+            Event(
+                name="ColangError",
+                arguments={"type": str(type(e).__name__), "error": str(e)},
+            ),
+        )
+        _abort_flow(state, flow_state, head.matching_scores)
+        return False
 
 
 def _generate_action_event_from_actionable_element(
